@@ -2194,6 +2194,7 @@ static void _conn_reset(xmpp_conn_t *conn)
     conn->bind_required = 0;
     conn->session_required = 0;
 
+    auth_release_scram_ctx(conn);
     handler_system_delete_all(conn);
 }
 
